@@ -1,4 +1,5 @@
 import MuduoVerif.Proofs.LogFile
+import MuduoVerif.Proofs.AsyncLog
 /-!
 # C16 — every log record handed to the back-end is written exactly once, whole, in order
 
@@ -9,6 +10,14 @@ every `fwrite_unlocked` result; all its guards and the period arithmetic are the
 `Generated/LogFile.lean`, re-extracted from /repo on every run.  The `tie_*` theorems pin each
 generated definition to the comparison the property text relies on, so a changed operator or
 constant in /repo makes an obligation fail even when the structure of the code is unchanged.
+
+Concurrent half (second part of this file): `Model/AsyncLog.lean` is a transition system with arbitrary
+interleaving of `AsyncLogging::append` calls (any number of threads), the phases of the back-end thread,
+`start` and `stop`; the statements of every critical section and phase are the statement lists of
+`Generated/AsyncLog.lean`, re-extracted from /repo on every run, and the model only interprets them.
+The proofs (`Proofs/AsyncLog.lean`) evaluate those lists, so a dropped or reordered statement (the final
+collect losing its `swap`, say) or a changed comparison (`>` → `>=` in the front-end's space test) makes an
+obligation fail.
 -/
 namespace MuduoVerif.C16
 open MuduoVerif.LogFile MuduoVerif.Gen.LogFile
@@ -142,5 +151,142 @@ example :
         = [[1, 2, 3, 4, 5], [6]] := by
   refine ⟨_, rfl, ?_⟩
   decide
+
+end MuduoVerif.C16
+
+namespace MuduoVerif.C16
+open MuduoVerif.Gen.LogFile (fixedAppendFits kLargeBuffer)
+open MuduoVerif.AsyncLog MuduoVerif.Gen.AsyncLog
+
+/-! ## `AsyncLogging` (concurrent half) -/
+
+/-- **front_fits_is_fixed_fits**: a record `AsyncLogging::append` decides to put into the current buffer is
+really stored by `FixedBuffer::append` (which silently ignores a record unless its own test holds). -/
+theorem front_fits_is_fixed_fits (a l : Nat) : frontFits a l → fixedAppendFits a l :=
+  frontFits_fixed a l
+
+/-- … and conversely the front-end switches buffers only when the current one really cannot take the record -/
+theorem fixed_fits_is_front_fits (a l : Nat) : fixedAppendFits a l → frontFits a l :=
+  fixed_frontFits a l
+
+/-- a fresh buffer takes every record shorter than itself; the real class uses `FixedBuffer<kLargeBuffer>` -/
+theorem fresh_buffer_takes (cap l : Nat) (h : l < cap) :
+    fixedAppendFits (avail cap []) l ∧ asyncBufferSize = kLargeBuffer :=
+  ⟨empty_takes cap l h, by simp [asyncBufferSize, kLargeBuffer]⟩
+
+/-- **async_order**: for every buffer size, every number of threads, every history (interleaving of `append`
+calls with the back-end's steps, `start`, `stop`) in which each record is shorter than a buffer: the ledger of
+what the back-end has written or dropped, then the buffers it holds, then the queued buffers, then the current
+buffer are — as lists of whole records — exactly the `append` calls of the history in the order of their
+critical sections; the records in the file are the kept part of the ledger, in that order; and no null buffer
+pointer is ever used. -/
+theorem async_order (cap : Nat) (steps : List Step) (s : St) (hrun : run (init cap) steps = some s)
+    (hfit : ∀ r ∈ fronts steps, r.len < cap) :
+    expand s.ledger ++ (inflight s).flatten ++ s.bufs.flatten ++ s.cur = fronts steps ∧
+    recsOf s.disk = keptOf s.ledger ∧ s.fault = false := by
+  have h := AInv_run cap steps (init cap) s (AInv_init cap) hfit hrun
+  have ha := appended_run steps (init cap) s hrun
+  exact ⟨by rw [h.eq, ha]; simp [init], h.kept, h.ok.2.1⟩
+
+/-- exactly once, never split, in order: what is in the file or still in some buffer is a sub-list of the
+appended records (mutex order), hence each record occurs at most as often as it was appended and relative
+order is kept -/
+theorem async_exactly_once_in_order (cap : Nat) (steps : List Step) (s : St) (hrun : run (init cap) steps = some s)
+    (hfit : ∀ r ∈ fronts steps, r.len < cap) :
+    (recsOf s.disk ++ (inflight s).flatten ++ s.bufs.flatten ++ s.cur).Sublist (fronts steps) := by
+  obtain ⟨h1, h2, _⟩ := async_order cap steps s hrun hfit
+  rw [← h1, h2]
+  exact List.Sublist.append (List.Sublist.append (List.Sublist.append (keptOf_sublist_expand _) (List.Sublist.refl _))
+    (List.Sublist.refl _)) (List.Sublist.refl _)
+
+/-- each thread's records reach the file in that thread's order -/
+theorem async_thread_order (cap : Nat) (steps : List Step) (s : St) (hrun : run (init cap) steps = some s)
+    (hfit : ∀ r ∈ fronts steps, r.len < cap) (t : Nat) :
+    ((recsOf s.disk).filter (·.tid = t)).Sublist ((fronts steps).filter (·.tid = t)) := by
+  have h := async_exactly_once_in_order cap steps s hrun hfit
+  refine List.Sublist.filter _ (List.Sublist.trans ?_ h)
+  simp only [List.append_assoc]
+  exact List.sublist_append_left _ _
+
+/-- **drop_only_announced**: the announcements in the file are, one for one and in order, the groups of
+buffers the back-end discarded, each reporting the number of buffers of its group; the same announcements
+went to stderr; and when there is no announcement the file holds the whole ledger — nothing vanished. -/
+theorem drop_only_announced (cap : Nat) (steps : List Step) (s : St) (hrun : run (init cap) steps = some s)
+    (hfit : ∀ r ∈ fronts steps, r.len < cap) :
+    notesOf s.disk = dropsOf s.ledger ∧ s.errNotes = notesOf s.disk ∧
+    (notesOf s.disk = [] →
+      recsOf s.disk ++ (inflight s).flatten ++ s.bufs.flatten ++ s.cur = fronts steps) := by
+  have h := AInv_run cap steps (init cap) s (AInv_init cap) hfit hrun
+  obtain ⟨h1, h2, _⟩ := async_order cap steps s hrun hfit
+  refine ⟨h.notes, h.err, fun hn => ?_⟩
+  rw [← h1, h2, expand_eq_keptOf _ (h.notes ▸ hn)]
+
+/-- **oversize_guard**, the excluded branch: a record that does not fit even an empty buffer is counted as
+appended but stored nowhere — `FixedBuffer::append` ignores it without any announcement (the buffer switch
+happens all the same).  Hence the hypothesis `r.len < cap` of the theorems above. -/
+theorem oversize_dropped (s : St) (r : Rec) (hok : s.curOk = true) (h : s.cap ≤ r.len) :
+    (front s r).bufs.flatten ++ (front s r).cur = s.bufs.flatten ++ s.cur ∧
+    (front s r).appended = s.appended ++ [r] ∧ (front s r).bufs = s.bufs ++ [s.cur] := by
+  have hnf := (full_refuses s.cap s.cur r.len h).1
+  have hnx := (full_refuses s.cap [] r.len h).2
+  have hb : bufAppend s.cap [] r = [] := by unfold bufAppend; rw [if_neg hnx]
+  unfold front
+  simp [hok, hnf, runOps_frontElse r s hok, hb]
+
+/-- the buffer switch signals a waiting back-end -/
+theorem switch_signals (s : St) (r : Rec) (hok : s.curOk = true) (hnf : ¬ frontFits (avail s.cap s.cur) r.len)
+    (hw : s.pc = .waiting) : (front s r).woken = true := by
+  unfold front
+  simp [hok, hnf, runOps_frontElse r s hok, notified, hw]
+
+/-- **stop_flushes**: when `stop()` has returned (which it does only after the back-end thread has ended),
+everything appended before the call — `fronts pre` — is in the ledger of written-or-announced records, in
+order; everything handed to the file is flushed; and without a drop announcement it is all in the file. -/
+theorem stop_flushes (cap : Nat) (pre post : List Step) (s : St)
+    (hrun : run (init cap) (pre ++ Step.stopCall :: post) = some s)
+    (hfit : ∀ r ∈ fronts (pre ++ Step.stopCall :: post), r.len < cap) (hret : s.stopReturned = true) :
+    s.pc = .done ∧ fronts pre <+: expand s.ledger ∧ s.flushed = s.disk.length ∧
+    (notesOf s.disk = [] → fronts pre <+: recsOf s.disk) := by
+  have h := AInv_run cap _ (init cap) s (AInv_init cap) hfit hrun
+  rw [run_append] at hrun
+  cases h1 : run (init cap) pre with
+  | none => simp [h1] at hrun
+  | some s1 =>
+    simp only [h1, Option.bind_some, run] at hrun
+    cases h2 : step s1 .stopCall with
+    | none => simp [h2] at hrun
+    | some s2 =>
+      simp only [h2] at hrun
+      obtain ⟨ha, hc⟩ := stopCall_atStop s1 s2 h2
+      have hat : s.atStop = fronts pre := by
+        rw [run_atStop post s2 s hc hrun, ha, appended_run pre (init cap) s1 h1]; simp [init]
+      have hd := h.ret hret
+      obtain ⟨_, hp, hfl⟩ := h.fin hd
+      refine ⟨hd, hat ▸ hp, hfl, fun hn => ?_⟩
+      rw [h.kept, ← expand_eq_keptOf _ (h.notes ▸ hn)]
+      exact hat ▸ hp
+
+/-- the hypotheses are satisfiable, exact-fit record: the second record is exactly as long as the space left
+(it must go to the next buffer), `stop()` is called while both buffers are still with the front-end -/
+example :
+    ∃ s, run (init 10) [.start, .test, .front ⟨1, 0, 5⟩, .front ⟨1, 1, 5⟩, .front ⟨2, 0, 3⟩, .stopCall,
+                         .enter, .write, .test, .final, .stopJoin] = some s ∧
+      s.stopReturned = true ∧ recsOf s.disk = [⟨1, 0, 5⟩, ⟨1, 1, 5⟩, ⟨2, 0, 3⟩] ∧ s.bufs = [] ∧ notesOf s.disk = [] :=
+  ⟨_, rfl, rfl, rfl, rfl, rfl⟩
+
+/-- … `stop()` right after a buffer switch, with the back-end past its last swap (it sees `running_ == false`
+at once): the final collect writes the queued buffer and the current one -/
+example :
+    ∃ s, run (init 10) [.start, .test, .enter, .wake 1, .write, .front ⟨1, 0, 6⟩, .front ⟨1, 1, 6⟩, .stopCall,
+                         .test, .final, .stopJoin] = some s ∧
+      s.stopReturned = true ∧ recsOf s.disk = [⟨1, 0, 6⟩, ⟨1, 1, 6⟩] ∧ s.flushed = 2 :=
+  ⟨_, rfl, rfl, rfl, rfl⟩
+
+/-- … and the overload valve: 27 buffers between two cycles, 2 are written, 25 announced as dropped -/
+example :
+    ∃ s, run (init 2) ((List.range 27).map (fun i => Step.front ⟨0, i, 1⟩) ++
+                        [.start, .test, .enter, .write, .stopCall, .test, .final, .stopJoin]) = some s ∧
+      s.stopReturned = true ∧ recsOf s.disk = [⟨0, 0, 1⟩, ⟨0, 1, 1⟩] ∧ notesOf s.disk = [25] ∧ dropsOf s.ledger = [25] :=
+  ⟨_, rfl, rfl, rfl, rfl, rfl⟩
 
 end MuduoVerif.C16
